@@ -314,13 +314,12 @@ func (w *world) send(e *endpoint, data []byte) {
 			if ret == 0 {
 				e.written = append(e.written, data...)
 			} else if ret == -2 {
-				// stream mode: the part appended to the last segment before the refusal IS accepted
+				// a refused Send must not have taken any byte (C01: the reader would see bytes the
+				// writer was told were not accepted)
 				d1 := kcp.VerifKCPState(e.k)
-				acc := 0
-				if n := len(d1.SndQueue); n > 0 && len(d0.SndQueue) == n {
-					acc = len(d1.SndQueue[n-1].Data) - len(d0.SndQueue[n-1].Data)
+				if n := len(d1.SndQueue); n > 0 && len(d0.SndQueue) == n && len(d1.SndQueue[n-1].Data) != len(d0.SndQueue[n-1].Data) {
+					w.viol("send-refusal-took-bytes", fmt.Sprintf("%s Send returned -2 but appended %d bytes to the last queued segment", e.name, len(d1.SndQueue[n-1].Data)-len(d0.SndQueue[n-1].Data)))
 				}
-				e.written = append(e.written, data[:acc]...)
 			}
 		} else if ret == 0 {
 			e.msgs = append(e.msgs, append([]byte(nil), data...))
